@@ -62,7 +62,9 @@ CHECK_DEADLOCK FALSE
 
 def odd_paragraph(s):
     import re
-    return any(r.count('\n') >= 2 and r != '\n\n' for r in re.findall(r'[ \t\n]+', s))
+    # a whitespace run with two or more newlines round-trips only if the newlines are exactly two adjacent ones
+    # (blanks before the first and after the last newline are preserved)
+    return any(r.count('\n') >= 2 and r.strip(' \t') != '\n\n' for r in re.findall(r'[ \t\n]+', s))
 
 
 KNOWN_PROBES = ['\n \n', '\n\n\n', 'a\n \nb', 'a \n\n\n b']
